@@ -38,6 +38,7 @@ const propID = "C13"
 const (
 	ladderBase = "0,0;1,0;0,1"
 	ladder11   = "0,0;1,0;0,1;1,1"
+	ladderSvc  = ladderBase
 	ladder12   = "0,0;1,0;0,1;1,1;2,1;1,2"
 	ladder22   = "0,0;1,0;0,1;1,1;2,1;1,2;2,2"
 )
@@ -56,6 +57,12 @@ func buildConfigs() []*Config {
 			if shape != "catchup-found" {
 				c.BidQ = strings.TrimPrefix(shape, "catchup-")
 			}
+		case "svc-none": // the real service; the order is only announced on the bus
+			c.Service = true
+		case "svc-catchup-notfound": // the real service; the order is open on chain at start-up, no own bid
+			c.Service, c.InitOrder, c.BidQ = true, true, "notfound"
+		case "svc-catchup-found": // the real service; the order is open on chain at start-up with the provider's own open bid
+			c.Service, c.InitOrder, c.BidQ = true, true, "found-open"
 		case "catchup-queryfails":
 			c.ExistingBid, c.Faults = true, []string{kBidQuery}
 		}
@@ -112,6 +119,23 @@ func buildConfigs() []*Config {
 	// the provider's own earlier bid found in a state other than open: never a second bid
 	for _, sh := range []string{"catchup-found-active", "catchup-found-lost", "catchup-found-closed"} {
 		add("quick", ladderBase, sh, true, false, 1, evShutdown)
+	}
+
+	// service level (real NewService / service.run / catch-up / de-duplication / drain; group without signature
+	// requirement, so the real attribute-signature service is running but never asked): the order is open on chain
+	// when the provider starts (without / with its own open bid) or is announced later; a (duplicate) announcement
+	// of the same order must not start a second handler; shutdown waits for every handler's clean-up.
+	add("quick", ladderSvc, "svc-catchup-notfound", false, false, 1, evOrderCreated, evShutdown)
+	add("quick", ladderSvc, "svc-catchup-found", false, false, 1, evOrderCreated, evShutdown)
+	add("quick", ladderSvc, "svc-none", false, false, 1, evOrderCreated, evOrderCreatedDup, evShutdown)
+	for _, sh := range []string{"svc-catchup-notfound", "svc-catchup-found", "svc-none"} {
+		evs := []string{evOrderCreated}
+		if sh == "svc-none" {
+			evs = append(evs, evOrderCreatedDup)
+		}
+		add("thorough", ladder11, sh, false, false, 2, append(append([]string{}, evs...), evShutdown)...)
+		add("thorough", ladderBase, sh, false, false, 1, append(append([]string{}, evs...), evLost, evShutdown)...)
+		add("thorough", ladderBase, sh, false, false, 1, append(append([]string{}, evs...), evClosed, evShutdown)...)
 	}
 
 	// thorough: two failures (subsumes the quick configurations with one), deeper budgets ...
@@ -201,8 +225,11 @@ func parseBudgets(spec string) ([]vs.Budget, error) {
 	return out, nil
 }
 
-func exploreOpts(b []vs.Budget, deadline time.Time) vs.Options {
-	return vs.Options{Budgets: b, Prune: true, Deadline: deadline, MaxSteps: 20000, MaxViolations: 64}
+// exploreOpts: service-level configurations (25+ goroutines with the real service, its attribute-signature service
+// and their bus subscriptions) use delay bounding: P counts every deviation from the canonical run-to-block
+// schedule, not only preemptions (gosched Options.DelayBounded); order-level configurations keep preemption bounding.
+func exploreOpts(cfg *Config, b []vs.Budget, deadline time.Time) vs.Options {
+	return vs.Options{Budgets: b, Prune: true, Deadline: deadline, MaxSteps: 20000, MaxViolations: 64, DelayBounded: cfg != nil && cfg.Service}
 }
 
 func main() {
@@ -262,7 +289,7 @@ func doWorker(name string, d time.Duration, bs []vs.Budget) int {
 		dl = time.Now().Add(d)
 	}
 	// one violation per distinct signature is reported by a worker; the exploration goes on
-	st := vs.Explore(factory(cfg, map[string]bool{}), exploreOpts(bs, dl))
+	st := vs.Explore(factory(cfg, map[string]bool{}), exploreOpts(cfg, bs, dl))
 	json.NewEncoder(os.Stdout).Encode(workerOut{Config: name, Stats: st})
 	if len(st.Errors) > 0 {
 		return 2
@@ -307,7 +334,7 @@ func doRun(name, choices string) int {
 		fmt.Sscan(f, &n)
 		cs = append(cs, n)
 	}
-	return printResult(cfg, vs.RunOnce(factory(cfg, nil), cs, exploreOpts(nil, time.Time{})))
+	return printResult(cfg, vs.RunOnce(factory(cfg, nil), cs, exploreOpts(cfg, nil, time.Time{})))
 }
 
 func doReplay(path string) int {
@@ -326,7 +353,7 @@ func doReplay(path string) int {
 		fmt.Fprintf(os.Stderr, "c13: unknown configuration %q\n", rp.Config)
 		return 2
 	}
-	r := vs.RunOnce(factory(cfg, nil), rp.Choices, exploreOpts(nil, time.Time{}))
+	r := vs.RunOnce(factory(cfg, nil), rp.Choices, exploreOpts(cfg, nil, time.Time{}))
 	if r.Status == vs.StatusDiverged {
 		fmt.Printf("replay diverged: %s\n", r.Msg)
 		return 2
@@ -343,7 +370,7 @@ func selfTest(n int) error {
 	if cfg == nil {
 		return fmt.Errorf("self-test configuration missing")
 	}
-	opts := exploreOpts(nil, time.Time{})
+	opts := exploreOpts(cfg, nil, time.Time{})
 	// budget (0,0) must contain the linear run: every call released with its first ok variant, the
 	// terminating event last -> one bid at the maximum price after a reservation
 	linear := false
@@ -595,7 +622,7 @@ func doParent(tier string, nworkers int, only string, d time.Duration, noEvid bo
 		var first *vs.Result
 		ok := true
 		for k := 0; k < 5 && ok; k++ {
-			r := vs.RunOnce(factory(f.cfg, nil), f.v.Choices, exploreOpts(nil, time.Time{}))
+			r := vs.RunOnce(factory(f.cfg, nil), f.v.Choices, exploreOpts(f.cfg, nil, time.Time{}))
 			has := false
 			for _, m := range r.Violations {
 				if m == f.msg {
@@ -711,7 +738,8 @@ func doParent(tier string, nworkers int, only string, d time.Duration, noEvid bo
 				"a query / pricing / broadcast call made with a context that is already done returns ctx.Err() and submits nothing (as client/broadcaster/serial.go may); contexts are real (not virtualised): only cancel() by the monitor and zero/negative timeouts are visible; Config.BidTimeout is 0 in all configurations except the '-timeout-' ones",
 				"pricing.go (shell-script and random strategies) is not instrumented and is replaced by a scripted BidPricingStrategy returning the group maximum, maximum+1, or an error",
 				"'without the provider having won the lease' = no EventLeaseCreated for this order and this provider was published before the monitor terminated; 'released' / 'close-bid submitted' = an Unreserve call made after the successful Reserve / a MsgCloseBid broadcast call, whatever they return",
-				"the close-bid obligation is checked for bids created by THIS monitor (a successful MsgCreateBid broadcast), not for a bid found by the existing-bid query (found in state open / active / lost / closed: in every state no MsgCreateBid may follow - 'at most one bid' across restarts)",
+				"an own bid found OPEN by the existing-bid query must also be closed when handling ends without a lease, provided its answer had reached the handler (the environment saw the system quiescent after releasing it, before anything ended the handler: order.go does not close a bid whose query result is still in flight when it gives up - not demanded); bids found active / lost / closed need no close; service-level configurations judge clean-up at service.Done() and allow a new MsgCreateBid only after the earlier broadcast failed or the earlier bid was closed",
+				"the close-bid obligation for NEW bids is checked for bids created by a monitor of this run (a successful MsgCreateBid broadcast) (found in state open / active / lost / closed: in every state no MsgCreateBid may follow - 'at most one bid' across restarts)",
 				"leases created for this provider that differ from the order in exactly one of owner / dseq / gseq are injected and must be ignored (LeaseWon only for the lease of this order and provider); a lease for ANOTHER ORDER (oseq) of the same group is not injected by the tiers: the chain never has two live orders in one group (x/market/keeper CreateOrder: 'active order exists') - order.go would take it as a win (configuration new-lease-otheroseq+shutdown-f0, tier 'probe')",
 			},
 		}
